@@ -51,3 +51,15 @@ ENTRY["level_text"] += (" What a node HOLDS after the ceremony is covered too: M
     "foreign share index is refused whole (exchange_rejects_foreign_share_index) and that the n collected partials aggregate to the group signature "
     "(aggregate_is_group_signature); tied by stream dkgrun: the real dkg.Run of all nodes over loopback libp2p, artifacts loaded from disk and "
     "recomputed from the keystore secrets.")
+
+# Fifth session: the node-side glue of dkg/pedersen around kyber (readBoardChannel, makeNodes, node sort, thresholds,
+# validate*, restoreCommitsFromPubShares / restoreDistKeyShare over kyber's RecoverPubPoly, remove-only re-indexing,
+# keyShareToBLS, processKey, MsgFromShare, generateNonce): Model/PedersenGlue.lean, theorems Props/C11Pedersen.lean (the
+# restoration theorems through Mathlib's Lagrange interpolation and the proved primality of Fr.r), stream pedglue (the real
+# exported functions with points built as s*G, junk strings, duplicates, unexpected peers, off-polynomial shares).
+from vlib import snippet_C11pedglue as _pg
+ENTRY["streams"].append(_pg.STREAM)
+ENTRY["lean_props_extra"].append(_pg.EXTRA_LEAN)
+ENTRY["trusted_base"] = ENTRY["trusted_base"] + _pg.TRUSTED_BASE
+ENTRY["assumptions"] = ENTRY["assumptions"] + _pg.ASSUMPTIONS
+ENTRY["level_text"] += _pg.LEVEL_TEXT
